@@ -153,6 +153,9 @@ type Violation struct {
 	Model   map[string]uint64 `json:"model"`
 	Where   string            `json:"where"`
 	Notes   []string          `json:"notes,omitempty"`
+	// Alt: models of up to three other paths that violate the same label / signature (the native
+	// replay tries them when the first one does not reproduce: schedule-dependent harnesses)
+	Alt []map[string]uint64 `json:"-"`
 }
 
 func (v *Violation) Key() string { return v.Label + "|" + v.Sig }
@@ -757,6 +760,7 @@ func (e *Explorer) Run() *Report {
 	active := 0
 	stop := false
 	seen := map[string]bool{}
+	firstOf := map[string]*Violation{}
 	nw := e.Cfg.Workers
 	if nw < 1 {
 		nw = 1
@@ -837,8 +841,12 @@ func (e *Explorer) Run() *Report {
 					}
 					for _, v := range res.Violations {
 						rep.ViolationCount++
+						if first, ok := firstOf[v.Key()]; ok && len(first.Alt) < 3 && v.Model != nil {
+							first.Alt = append(first.Alt, v.Model)
+						}
 						if !seen[v.Key()] {
 							seen[v.Key()] = true
+							firstOf[v.Key()] = v
 							rep.Violations = append(rep.Violations, v)
 						}
 					}
